@@ -113,7 +113,18 @@ Definition init_meta : imeta := mkMeta [] 0 None.
 (* ------------------------------------------------------------------ internal events *)
 Inductive event :=
   | ETake (w : nat)        (* worker w receives the next batch of the channel *)
-  | ECut (w : nat).        (* worker w reaches its memory budget: closes and registers its segment *)
+  | ECut (w : nat)         (* worker w reaches its memory budget: closes and registers its segment *)
+  | EStaleSave (m : imeta). (* a task of an updater that was killed (its writer was dropped / rolled back while the task --
+                              typically the end of a merge -- was queued or running) reaches save_metas with its own
+                              view `m` of the committed segments, opstamp and payload *)
+
+(* SegmentUpdater::save_metas: `if self.is_alive() { ... save_metas(&index_meta, ..); store_meta(..) } Ok(())`.
+   `alive` is false for every task of a killed updater (kill() precedes the creation of the next writer);
+   the commit path runs it with alive = true: the producer waits for schedule_commit while it borrows the writer. *)
+Definition set_meta (st : wstate) (m : imeta) : wstate :=
+  mkW (stamper_ st) (committed_opstamp st) (dq st) (chan st) (workers st) (unc st) (com st) m.
+Definition save_metas_guarded (alive : bool) (m : imeta) (st : wstate) : wstate :=
+  if alive then set_meta st m else st.
 
 Fixpoint upd_nth {A} (i : nat) (f : A -> A) (l : list A) : list A :=
   match l, i with
@@ -154,7 +165,7 @@ Definition do_cut (st : wstate) (i : nat) : wstate :=
   | Some w => set_workers (finalize st w) (upd_nth i (fun w => mkWorker (w_cur w) []) (workers st))
   end.
 Definition do_event (st : wstate) (e : event) : wstate :=
-  match e with ETake i => do_take st i | ECut i => do_cut st i end.
+  match e with ETake i => do_take st i | ECut i => do_cut st i | EStaleSave m => save_metas_guarded false m st end.
 
 (* ------------------------------------------------------------------ user operations *)
 (* oracle of one call: the internal events that happen before it, and (prepare_commit only) the
